@@ -477,6 +477,7 @@ Definition check_c05 (sd cd : sdef) (n : nat) (gated : list path) (sched : list 
           | Some ready =>
               (* the all-ready run of the tree is Exec.v's executor model (ties Sched to C01's model) *)
               if negb (value_eqb (sr_data ready) (rs_data e) && list_eqb path_eqb (sr_errors ready) (rs_errors e)) then 9
+              else if negb (fresh t) then 9               (* hypothesis of C05_same_as_ready_run / C05_verdict_sound *)
               else if (30 <? max_join t)%nat then 8       (* TryJoinAll switches to FuturesOrdered: not modelled *)
               else
                 match run sched t with
